@@ -3,7 +3,7 @@ from checks import krill_common as kc
 
 PID = "C04"
 LEVEL = "model_checking"
-THEMES = "roll,multi".split(",")
+THEMES = "roll,multi,mix".split(",")
 NEEDED = "RollInit,RollActivate,Settled".split(",")
 
 RULE = (
@@ -52,7 +52,7 @@ def run(tier, seed):
         assumptions=kc.COMMON_ASSUMPTIONS, rule=RULE, needed_events=NEEDED,
         mc_cfgs=(['MC_Krill_q_roll.cfg'] if tier == "quick" else ['MC_Krill_q_roll.cfg', 'MC_Krill_roll.cfg']),
         directed=DIRECTED + kc.MULTI_DIRECTED[1:],
-        theme_nums={"multi": (8, 80)})
+        theme_nums={"multi": (8, 80), "mix": (6, 60)})
 
 
 def replay(path, seed):
